@@ -568,6 +568,64 @@ def tw_serializer_cycles_mixed(n0: int, n1: int, k0: int, k1: int) -> bool:
     return False
 
 
+def ob_shared_subobject_encode_decode(a: str, b: int, n_items: int, share_opt: bool, twice: bool) -> bool:
+    """
+    pre: len(a) <= 1 and 0 <= n_items <= 2
+    post: _
+    """
+    # one Plain instance reachable several times (list items, the optional field) without any cycle: identity sharing must
+    # not change what is encoded, within one call and across two calls on the same object
+    p = Plain(a=a, b=b)
+    obj = Nested(inner=Mapped(first_name=a, class_=b), items=[p for _ in range(n_items)], opt=p if share_opt else None)
+    if twice:
+        unstructure_to_dict(obj)
+    enc = unstructure_to_dict(obj)
+    want = {"a": a, "b": b}
+    if len(enc.get("items", [])) != n_items or any(not isinstance(x, dict) or {k: v for k, v in x.items() if v is not None} != want for x in enc.get("items", [])):
+        return False
+    return structure_from_dict(enc, Nested) == obj
+
+
+def tw_shared_subobject_encode_decode(a: str, b: int, n_items: int, share_opt: bool, twice: bool) -> bool:
+    """
+    pre: len(a) <= 1 and 0 <= n_items <= 2
+    post: _
+    """
+    p = Plain(a=a, b=b)
+    structure_from_dict(unstructure_to_dict(Nested(inner=Mapped(first_name=a, class_=b), items=[p, p], opt=p)), Nested)
+    return False
+
+
+def ob_serializer_shared_acyclic(name: str, in_next: bool, n_kids: int, wrap: bool) -> bool:
+    """
+    pre: len(name) <= 1 and 0 <= n_kids <= 2
+    post: _
+    """
+    # a DAG, not a cycle: the leaf is reachable through next and through children; the output is the tree expansion
+    leaf = Node(name)
+    root = Node("r", next=leaf if in_next else None, children=[leaf for _ in range(n_kids)])
+    out = DataclassSerializer.serialize([root, {"x": leaf}] if wrap else root)
+    r = out[0] if wrap else out
+    if wrap and (not isinstance(out[1], dict) or not isinstance(out[1].get("x"), dict) or out[1]["x"].get("name") != name):
+        return False
+    if not isinstance(r, dict) or r.get("name") != "r":
+        return False
+    if in_next and (not isinstance(r.get("next"), dict) or r["next"].get("name") != name):
+        return False
+    kids = r.get("children", [])
+    return len(kids) == n_kids and all(isinstance(k, dict) and k.get("name") == name for k in kids) and is_json_data(out)
+
+
+def tw_serializer_shared_acyclic(name: str, in_next: bool, n_kids: int, wrap: bool) -> bool:
+    """
+    pre: len(name) <= 1 and 0 <= n_kids <= 2
+    post: _
+    """
+    leaf = Node(name)
+    DataclassSerializer.serialize(Node("r", next=leaf, children=[leaf]))
+    return False
+
+
 def ob_serializer_values(a: str, b: int, has_c: bool, n: int) -> bool:
     """
     pre: len(a) <= 2 and 0 <= n <= 2
